@@ -123,6 +123,22 @@ def r2(led, rid, ctx):
                 ok = C18.forwards(lib, f, m, "Propagator", field, ftypes.get(field))
                 led.check(ok, rid, key, f.span, "forwards to %s.%s" % (field, m),
                           "%s::%s never reaches `%s.%s`" % (wname, m, field, m))
+                # events are forwarded whatever the literal's value is (the wrapped propagator's
+                # incremental state must mirror the domains even while r is false); only the two
+                # propagate functions are gated by the literal (R1)
+                if ok and m not in ("propagate", "debug_propagate_from_scratch"):
+                    for c in f.calls:
+                        if c.name == m and C18.which_trait(c.trait) == "Propagator" and \
+                                C18.self_field(f, c.args[0]) == field:
+                            gated = [fa for fa in guards_of(f, c.bb) if fa.kind == "bool" and
+                                     peel(fa.atom, calls=None).k == "call" and
+                                     peel(fa.atom, calls=None).a.name.startswith("is_literal")]
+                            led.check(not gated, rid, key + ":ungated", c.span,
+                                      "forwarded whatever the value of the reification literal",
+                                      "%s::%s forwards to the wrapped propagator only for some values of "
+                                      "the reification literal (%s): events that happen meanwhile are "
+                                      "lost and the wrapped propagator's incremental state goes stale"
+                                      % (wname, m, [show(fa.atom)[:50] for fa in gated]))
     led.floor(rid, "forwarding rows", n, 7)
     # detect_inconsistency is asked only by the wrapper of its own child
     for f in lib.fns.values():
@@ -211,11 +227,11 @@ def r4(led, rid, ctx):
         if lit is None:
             led.bad(rid, "%s:no-literal-param" % wname, f.span, "implied_by without a literal parameter")
             continue
-        tainted = forward(f, [lit])
+        tainted = forward(f, [lit], effects=False)
         bodies = [(f, tainted)]
         for g in f.closures:
             seeds = closure_seeds(lib.fns.get(g.direct_parent) or f, g, tainted)
-            bodies.append((g, forward(g, seeds) if seeds else set()))
+            bodies.append((g, forward(g, seeds, effects=False) if seeds else set()))
         posts = 0
         clausal = False
         for g, t in bodies:
@@ -226,7 +242,9 @@ def r4(led, rid, ctx):
                     continue
                 posts += 1
                 n += 1
-                dep = any(l in t for a in c.args for l in operand_locals(a))
+                # the solver receiver does not count: the literal must reach what is posted
+                payload = [a for a, ty in zip(c.args, c.term.get("arg_tys", [])) if "Solver" not in ty.split("<")[0]]
+                dep = any(l in t for a in payload for l in operand_locals(a))
                 key = "%s:%s" % (wname, c.name)
                 if c.name == "post":
                     led.bad(rid, key, c.span, "%s::implied_by posts a sub-constraint unconditionally "
@@ -244,16 +262,16 @@ def r4(led, rid, ctx):
                     for x in nots:
                         if x.dst is None:
                             continue
-                        t2 = forward(g, [x.dst["local"]])
+                        t2 = forward(g, [x.dst["local"]], effects=False)
                         if any(l in t2 for a in c.args for l in operand_locals(a)):
                             feeds = True
                     # also closures (the negation may be computed in the parent and captured)
                     if not feeds and g is not f:
                         for x in f.calls:
                             if x.name == "not" and any(l in tainted for a in x.args for l in operand_locals(a)) and x.dst:
-                                t3 = forward(f, [x.dst["local"]])
+                                t3 = forward(f, [x.dst["local"]], effects=False)
                                 s3 = closure_seeds(f, g, t3)
-                                if s3 and any(l in forward(g, s3) for a in c.args for l in operand_locals(a)):
+                                if s3 and any(l in forward(g, s3, effects=False) for a in c.args for l in operand_locals(a)):
                                     feeds = True
                     led.check(feeds, rid, "%s:clause-gets-negated-literal" % wname, c.span,
                               "the clause contains ¬r", "%s::implied_by adds a clause that contains r "
